@@ -15,7 +15,14 @@ Four sub-domains (case["mode"]):
  sshclient  SSHClient.connect(sock=...) with generated known_hosts lines (plain / hashed names;
             the looked-up name, the bare host for a non-default port, another port, another host;
             the server's key / a different key of the same type / other types), system or local
-            store, policy Reject / AutoAdd / Warning / custom accepting / custom raising.
+            store, policy Reject / AutoAdd / Warning / custom accepting / custom raising / an AutoAdd
+            subclass that records the key and then raises. A raising policy raises an exception of a
+            GENERATED class (SSHException family, OSError family incl. socket errors, other builtins,
+            plain Exception; the class itself or a fresh subclass; with / without errno / arguments).
+            The credentials are supplied in every documented way: password=, pkey=, key_filename=
+            (one path / a list), combinations, and auth_strategy= with an AuthStrategy yielding
+            Password / InMemoryPrivateKey / OnDiskPrivateKey / NoneAuth sources (1-2 of them);
+            agent and ~/.ssh discovery are off.
  history    ONE SSHClient object (system store + user store loaded from generated known_hosts texts:
             plain and hashed names of two hosts x three ports, 7 keys) living through a generated
             sequence of 2-6 events: connect(host, port, server key set, policy, auth method) - every
@@ -56,9 +63,12 @@ RULE = (
     "hypothesis-generated configurations in four sub-domains: (lifecycle) auth method x transport class x handshake stage "
     "(9 stages, the link holding back the server's chunks); (connect) server host key set x hostkey argument in "
     "{same, sibling of same type, other type, none} x auth method; (sshclient) server host key set x port x 0..4 known_hosts lines "
-    "(name kind x hashed x key) x store x 5 policies x auth method; (history) one SSHClient with a system and a user store "
+    "(name kind x hashed x key) x store x 6 policies (Reject, AutoAdd, Warning, accepting, raising, AutoAdd-then-raising; a raising policy "
+    "raises a generated exception class: 17 bases from the SSHException / OSError / other-builtin families, itself or a fresh subclass, "
+    "3 argument shapes) x 11 ways of supplying the credentials (password=, pkey=, key_filename= path or list, combinations, auth_strategy= "
+    "with Password / InMemoryPrivateKey / OnDiskPrivateKey / NoneAuth sources); (history) one SSHClient with a system and a user store "
     "(0..3 lines each: 1-2 names of 2 hosts x 3 ports, plain or hashed, 7 keys) driven through 2..6 events in generated order - "
-    "connects (host x port x server key set x policy x method, each to a fresh server) and HostKeys lookups (4 APIs x store x name) - "
+    "connects (host x port x server key set x policy (+ exception class) x credential source, each to a fresh server) and HostKeys lookups (4 APIs x store x name) - "
     "with the oracle evaluated per connect against the union of both stores plus earlier AutoAdd additions; quick enumerates all lifecycle stage x method x class "
     "combinations; non-trivial = the model forbids sending (mismatch / rejected unknown host), or the auth call happens before "
     "the key exchange finished, or an unknown host is accepted by a policy; distinct by configuration"
@@ -103,6 +113,53 @@ connect_st = st.fixed_dictionaries(
 )
 
 ALL_KEYS = ["ed25519", "ed25519b", "ecdsa256", "ecdsa256b", "rsa2048", "rsa2048b", "ecdsa521"]
+
+# every documented way of handing credentials to SSHClient.connect (agent and ~/.ssh discovery switched off):
+# the classic keyword arguments, alone and combined, and auth_strategy= with the sources of paramiko.auth_strategy
+HOWS = [
+    "password",
+    "pkey",
+    "key_filename",
+    "key_filename-list",
+    "pkey+password",
+    "key_filename+password",
+    "strategy:password",
+    "strategy:in-memory-key",
+    "strategy:on-disk-key",
+    "strategy:none,password",
+    "strategy:in-memory-key,password",
+]
+how_st = st.sampled_from(HOWS)
+# a refusing policy rejects by raising: the class is generated (paramiko's own, the OSError family, other builtins,
+# an application class deriving directly from Exception), optionally a fresh subclass of it
+EXC_BASES = [
+    "SSHException",
+    "AuthenticationException",
+    "OSError",
+    "IOError",
+    "PermissionError",
+    "FileNotFoundError",
+    "ConnectionRefusedError",
+    "ConnectionResetError",
+    "TimeoutError",
+    "socket.timeout",
+    "socket.gaierror",
+    "EOFError",
+    "ValueError",
+    "KeyError",
+    "RuntimeError",
+    "LookupError",
+    "Exception",
+]
+exc_st = st.fixed_dictionaries({"base": st.sampled_from(EXC_BASES), "sub": st.booleans(), "args": st.sampled_from(["msg", "errno+msg", "none"])})
+POLICIES = ["reject", "autoadd", "warning", "accept", "raise", "raise", "autoadd-then-raise"]
+RAISING = ("raise", "autoadd-then-raise")
+
+
+def _with_exc(d):
+    """Adds the generated exception class to a configuration whose policy rejects by raising."""
+    return exc_st.map(lambda e: dict(d, exc=e)) if d["policy"] in RAISING else st.just(d)
+
 entry_st = st.fixed_dictionaries(
     {
         "names": st.lists(st.sampled_from(["exact", "exact", "bare", "otherport", "otherhost"]), min_size=1, max_size=2, unique=True),
@@ -117,11 +174,11 @@ sshclient_st = st.fixed_dictionaries(
         "port": st.sampled_from([22, 22, 2222]),
         "entries": st.lists(entry_st, max_size=4),
         "store": st.sampled_from(["system", "local"]),
-        "policy": st.sampled_from(["reject", "autoadd", "warning", "accept", "raise"]),
-        "method": st.sampled_from(["password", "publickey"]),
+        "policy": st.sampled_from(POLICIES),
+        "how": how_st,
         "secret": secret,
     }
-)
+).flatmap(_with_exc)
 
 HOSTS = [HOST, OTHERHOST]
 CONNECT_PORTS = [22, 2222]
@@ -134,10 +191,10 @@ connect_ev = st.fixed_dictionaries(
         "host": st.integers(0, len(HOSTS) - 1),
         "port": st.sampled_from(CONNECT_PORTS),
         "server_keys": server_keys,
-        "policy": st.sampled_from(["reject", "autoadd", "warning", "accept", "raise"]),
-        "method": st.sampled_from(["password", "publickey"]),
+        "policy": st.sampled_from(POLICIES),
+        "how": how_st,
     }
-)
+).flatmap(_with_exc)
 lookup_ev = st.fixed_dictionaries(
     {
         "op": st.just("lookup"),
@@ -429,6 +486,88 @@ def lookup_name(host, port):
     return host if port == 22 else "[%s]:%d" % (host, port)
 
 
+def how_of(cfg):
+    """cfg = a sshclient case or a history connect event (older replays carry "method")."""
+    return cfg.get("how") or {"password": "password", "publickey": "pkey"}[cfg["method"]]
+
+
+def cred_kwargs(case, how):
+    """Keyword arguments for SSHClient.connect supplying the credentials the way `how` says."""
+    import paramiko
+    from paramiko import auth_strategy as AS
+
+    pw = password_of(case)
+    path = os.path.join(peers.KEYDIR, CLIENT_KEY + ".key")
+    if not how.startswith("strategy:"):
+        kw = {}
+        for part in how.split("+"):
+            if part == "password":
+                kw["password"] = pw
+            elif part == "pkey":
+                kw["pkey"] = pool_key(CLIENT_KEY)
+            elif part == "key_filename":
+                kw["key_filename"] = path
+            elif part == "key_filename-list":
+                kw["key_filename"] = [os.path.join(peers.KEYDIR, "ecdsa521.key"), path]  # the first key is not authorised
+            else:
+                raise core.HarnessError("unknown credential source %r" % how)
+        return kw
+    srcs = []
+    for part in how[len("strategy:") :].split(","):
+        if part == "password":
+            srcs.append(AS.Password(USER, lambda: pw))
+        elif part == "in-memory-key":
+            srcs.append(AS.InMemoryPrivateKey(USER, pool_key(CLIENT_KEY)))
+        elif part == "on-disk-key":
+            srcs.append(AS.OnDiskPrivateKey(USER, "python-config", path, pool_key(CLIENT_KEY)))
+        elif part == "none":
+            srcs.append(AS.NoneAuth(USER))
+        else:
+            raise core.HarnessError("unknown credential source %r" % how)
+
+    class Strategy(AS.AuthStrategy):
+        def get_sources(self):
+            for x in srcs:
+                yield x
+
+    return {"auth_strategy": Strategy(ssh_config=paramiko.SSHConfig())}
+
+
+def refusal_base(exc):
+    import builtins
+    import socket
+
+    import paramiko
+
+    name = (exc or {}).get("base", "SSHException")
+    if name.startswith("socket."):
+        return getattr(socket, name[len("socket.") :])
+    if name in ("SSHException", "AuthenticationException"):
+        return getattr(paramiko, name)
+    return getattr(builtins, name)
+
+
+def refusal(exc):
+    """The exception instance a refusing policy raises; exc = {"base", "sub", "args"} (absent: SSHException)."""
+    exc = exc or {"base": "SSHException", "sub": False, "args": "msg"}
+    base = refusal_base(exc)
+    cls = type("VerifRefusal", (base,), {}) if exc["sub"] else base
+    if exc["args"] == "errno+msg" and issubclass(base, OSError):
+        return cls(13, "verif policy says no")
+    if exc["args"] == "none":
+        return cls()
+    return cls("verif policy says no")
+
+
+def exc_class(exc):
+    """Evidence class of a generated refusal."""
+    import paramiko
+
+    base = refusal_base(exc)
+    fam = "OSError-family" if issubclass(base, OSError) else "SSHException-family" if issubclass(base, paramiko.SSHException) else "other"
+    return "%s:%s%s" % (fam, base.__name__, ":subclass" if (exc or {}).get("sub") else "")
+
+
 def entry_names(kinds, port):
     out = []
     for k in kinds:
@@ -472,29 +611,8 @@ def run_sshclient(ctx, case, classes):
     def mark():
         marks["n"] = len(link.ab.sent)
 
-    class Accept(paramiko.MissingHostKeyPolicy):
-        def missing_host_key(self, c, hostname, key):
-            marks["called"] = (hostname, key.asbytes())
-            mark()
-
-    class Raise(paramiko.MissingHostKeyPolicy):
-        def missing_host_key(self, c, hostname, key):
-            marks["called"] = (hostname, key.asbytes())
-            raise paramiko.SSHException("verif policy says no")
-
-    def wrap(base):
-        class P(base):
-            def missing_host_key(self, c, hostname, key):
-                marks["called"] = (hostname, key.asbytes())
-                try:
-                    return base.missing_host_key(self, c, hostname, key)
-                finally:
-                    mark()
-
-        return P()
-
     pol = case["policy"]
-    policy = {"reject": lambda: wrap(paramiko.RejectPolicy), "autoadd": lambda: wrap(paramiko.AutoAddPolicy), "warning": lambda: wrap(paramiko.WarningPolicy), "accept": Accept, "raise": Raise}[pol]()
+    policy = make_policy_obj(paramiko, pol, marks, mark, case.get("exc"))
     try:
         path = os.path.join(ctx.tmpdir(), "known_hosts_%d" % ctx.evaluations)
         with open(path, "w") as f:
@@ -505,11 +623,8 @@ def run_sshclient(ctx, case, classes):
             client.load_host_keys(path)
         client.set_missing_host_key_policy(policy)
         start_server(ts, good_server(case))
-        kw = {}
-        if case["method"] == "password":
-            kw["password"] = password_of(case)
-        else:
-            kw["pkey"] = pool_key(CLIENT_KEY)
+        how = how_of(case)
+        kw = cred_kwargs(case, how)
         raised = None
         with warnings.catch_warnings():
             warnings.simplefilter("ignore")
@@ -530,8 +645,10 @@ def run_sshclient(ctx, case, classes):
                 forbidden = "known-host-key-mismatch"
             classes.add("known:" + ("mismatch" if forbidden else "match"))
         else:
-            if pol in ("reject", "raise"):
+            if pol in ("reject",) + RAISING:
                 forbidden = "unknown-host-policy-" + pol
+                if pol in RAISING:
+                    classes.add("policy-raises:" + exc_class(case.get("exc")))
             else:
                 policy_mark = marks.get("n")
                 if policy_mark is None and raised is None:
@@ -545,6 +662,7 @@ def run_sshclient(ctx, case, classes):
             classes.add("hashed-entries")
         if case["port"] != 22:
             classes.add("non-default-port")
+        classes.add("credentials-via:%s:%s" % (how, "forbidden" if forbidden else "allowed"))
         ok, summ = check_stream(ctx, case, link, tc, forbidden, raised, policy_mark, "sshclient")
         if ok and not forbidden:
             if summ["encrypted_50"]:
@@ -594,7 +712,7 @@ class _Capture:
         return False
 
 
-def make_policy_obj(paramiko, pol, marks, mark):
+def make_policy_obj(paramiko, pol, marks, mark, exc=None):
     class Accept(paramiko.MissingHostKeyPolicy):
         def missing_host_key(self, c, hostname, key):
             marks["called"] = (hostname, key.asbytes())
@@ -603,7 +721,15 @@ def make_policy_obj(paramiko, pol, marks, mark):
     class Raise(paramiko.MissingHostKeyPolicy):
         def missing_host_key(self, c, hostname, key):
             marks["called"] = (hostname, key.asbytes())
-            raise paramiko.SSHException("verif policy says no")
+            raise refusal(exc)
+
+    class AddThenRaise(paramiko.AutoAddPolicy):
+        """Records the key like AutoAddPolicy, then refuses this connection all the same."""
+
+        def missing_host_key(self, c, hostname, key):
+            marks["called"] = (hostname, key.asbytes())
+            paramiko.AutoAddPolicy.missing_host_key(self, c, hostname, key)
+            raise refusal(exc)
 
     def wrap(base):
         class P(base):
@@ -616,7 +742,7 @@ def make_policy_obj(paramiko, pol, marks, mark):
 
         return P()
 
-    return {"reject": lambda: wrap(paramiko.RejectPolicy), "autoadd": lambda: wrap(paramiko.AutoAddPolicy), "warning": lambda: wrap(paramiko.WarningPolicy), "accept": Accept, "raise": Raise}[pol]()
+    return {"reject": lambda: wrap(paramiko.RejectPolicy), "autoadd": lambda: wrap(paramiko.AutoAddPolicy), "warning": lambda: wrap(paramiko.WarningPolicy), "accept": Accept, "raise": Raise, "autoadd-then-raise": AddThenRaise}[pol]()
 
 
 def execute_history(ctx, case, classes):
@@ -678,9 +804,10 @@ def execute_history(ctx, case, classes):
 
             tc = None
             try:
-                client.set_missing_host_key_policy(make_policy_obj(paramiko, ev["policy"], marks, mark))
+                client.set_missing_host_key_policy(make_policy_obj(paramiko, ev["policy"], marks, mark, ev.get("exc")))
                 start_server(ts, good_server(case))
-                kw = {"password": password_of(case)} if ev["method"] == "password" else {"pkey": pool_key(CLIENT_KEY)}
+                how = how_of(ev)
+                kw = cred_kwargs(case, how)
                 raised = None
                 before = client.get_transport()
                 with warnings.catch_warnings():
@@ -706,8 +833,14 @@ def execute_history(ctx, case, classes):
                     if want in auto:
                         classes.add("history:known-through-earlier-autoadd")
                 else:
-                    if pol in ("reject", "raise"):
+                    if pol in ("reject",) + RAISING:
                         forbidden = "unknown-host-policy-" + pol
+                        if pol in RAISING:
+                            classes.add("policy-raises:" + exc_class(ev.get("exc")))
+                        if pol == "autoadd-then-raise" and "called" in marks and presented is not None:
+                            # the refusing policy recorded the key first: the host is known to this client from now on
+                            known.append(({want}, presented))
+                            auto.add(want)
                     else:
                         policy_mark = marks.get("n")
                         if policy_mark is None and raised is None:
@@ -728,6 +861,7 @@ def execute_history(ctx, case, classes):
                     out["nontrivial"] = True
                 if nconn > 1:
                     classes.add("history:connect-number:%d" % min(nconn, 4))
+                classes.add("credentials-via:%s:%s" % (how, "forbidden" if forbidden else "allowed"))
                 ok, summ = check_stream(cap, case, link, tc, forbidden, raised, policy_mark, "history")
                 if not ok:
                     c, b, dt = cap.v
